@@ -11,7 +11,7 @@ def run(tier):
     progs += en.curated(names=["mixed14", "headless", "randroot"], manual=True)
     progs += en.curated(names=["deep3", "plans2"], payload="fat")
     args = ["--tier", tier, "--dev", "1" if thorough else "0", "--batch", "1", "--classes", str(en.cls("REQ", "GUARD")),
-            "--deadline", str(1500 if thorough else 150)]
+            "--deadline", str(en.TD if thorough else 150)]
     if thorough:
         # program families: all ordered trees with <= 4 states and the spine family (kind chains of depth 3 / 4)
         fam = [p for p in en.systematic(4) + en.spines()]
@@ -19,7 +19,7 @@ def run(tier):
             p.args = ["--dev", "0", "--batch", "1", "--deadline", "90"]
         progs += fam
         chk.coverage["program_families"] = {"programs": len(fam), "rule": "all ordered trees with <= 4 states (every region kind headed; composite/resumable/orthogonal also headless) + spine family (kind chains of depth 3 in two orientations, depth 4 over C/O/R)"}
-    res = en.run_all(chk, "C10", progs, args, timeout=(2400 if thorough else 400))
+    res = en.run_all(chk, "C10", progs, args, timeout=(en.TD + 900 if thorough else 400))
     en.aggregate(chk, res, "C10")
     chk.coverage["explanation"] = (
         "Differential determinism checks over the complete reachable state graph of each program (scripted and built-in "
